@@ -867,7 +867,9 @@ def install(names=None):
             d = self.dictionary
             notin = [t for t in result if t not in d]
             rec("C02", "tokenise", "closure", not notin, notin[:4])
-            dotted = [t for t in result if "." in t]
+            # tick-bearing token parts: rest lengths and note values
+            dotted = [t for t in result
+                      if any(part[:4] in ("val_", "rst_") and not part[4:].isdigit() for part in t.split("-"))]
             rec("C11", "tokenise", "integer_tokens", not dotted, dotted[:4])
             return True
         _contract(Tok, "tokenise", None, post_tok)
